@@ -71,8 +71,32 @@ NCHILD = [0]
 
 def run_child(cmd, env, cwd, timeout=180):
     NCHILD[0] += 1
-    cp = subprocess.run(cmd, env=env, cwd=cwd, capture_output=True, text=True, timeout=timeout)
+    # own session = own process group: a pre-empted job is killed as a whole
+    cp = subprocess.run(cmd, env=env, cwd=cwd, capture_output=True, text=True, timeout=timeout,
+                        start_new_session=True)
     return cp
+
+
+def _sweep_dead_semaphores():
+    """A job killed with its worker pool cannot unlink the pool's POSIX semaphores
+    (/dev/shm/sem.loky-<pid>-*); remove those whose creator is dead."""
+    try:
+        names = os.listdir("/dev/shm")
+    except OSError:
+        return
+    for nm in names:
+        mt = re.match(r"sem\.loky-(\d+)-", nm)
+        if not mt:
+            continue
+        try:
+            os.kill(int(mt.group(1)), 0)
+        except ProcessLookupError:
+            try:
+                os.remove(os.path.join("/dev/shm", nm))
+            except OSError:
+                pass
+        except OSError:
+            pass
 
 
 def run_c16(ctx):
@@ -118,6 +142,7 @@ def run_c16(ctx):
     if len(batches) != B:
         raise HarnessError("expected {} batches".format(B))
     keys = {b: sorted(calllog.key(kw) for kw in kws) for b, kws in batches.items()}
+    keys_in_order = {b: [calllog.key(kw) for kw in kws] for b, kws in batches.items()}
     allb = sorted(batches)
     # ------------------------------------------------------------ crop state
     state = t.weighted([("no-results", 2), ("some-results", 2), ("explicit-ids", 2)], "state")
@@ -166,6 +191,58 @@ def run_c16(ctx):
         return out
 
     ncalls = 0
+
+    def progress():
+        c = xyzpy.Crop(name=NAME, parent_dir=root)
+        return c.is_ready_to_reap(), tuple(c.missing_results())
+
+    kill_path = os.path.join(ctx.base, "kill-keys.json")
+
+    def killed_attempt(cmd, e, what, cand_batches):
+        """Run the job, pre-empted (SIGKILL to its process group) at the instant it
+        starts evaluating a tape-chosen setting of one of cand_batches.  A killed job
+        publishes nothing for the batch it was working on, and progress still lists
+        that batch as missing.  Returns the batch it died in."""
+        nonlocal ncalls
+        kb = t.pick(sorted(cand_batches), "kill-batch")
+        kk = keys_in_order[kb][t.choose(len(keys_in_order[kb]), "kill-setting")]
+        for pth in (kill_path, kill_path + ".fired"):
+            if os.path.exists(pth):
+                os.remove(pth)
+        with interpose.real.open(kill_path, "w") as f:
+            import json as _json
+
+            _json.dump([[list(x) for x in kk]], f)
+        before_tree = G.snapshot_tree(os.path.join(location, "results")) or {}
+        e = dict(e)
+        e["XSIM_KILL_KEYS"] = kill_path
+        cp = run_child(cmd, e, root)
+        fired = os.path.exists(kill_path + ".fired")
+        _sweep_dead_semaphores()
+        os.remove(kill_path)
+        _, ncalls = child_calls_since(ncalls)
+        if not fired:
+            raise HarnessError("{}: the kill point was never reached (rc {}): {}".format(
+                what, cp.returncode, (cp.stderr or "")[-300:]))
+        w.fired["job-killed-while-running"] += 1
+        ctx.t(what, "pre-empted while evaluating a setting of batch", kb)
+        after_tree = G.snapshot_tree(os.path.join(location, "results")) or {}
+        created, removed, modified = G.diff_trees(before_tree, after_tree)
+        rname = "xyz-result-{}.jbdmp".format(kb)
+        if rname in created or rname in modified or removed:
+            raise Violation("killed-job-published-result",
+                            "{} was killed inside batch {} yet results/ changed: created {} "
+                            "modified {} removed {}".format(what, kb, created, modified, removed))
+        have = {int(mm.group(1)) for pth in after_tree
+                for mm in [re.search(r"xyz-result-(\d+)\.jbdmp$", pth)] if mm}
+        ready, miss = call("poller", progress, "progress-raised")
+        if set(miss) != set(allb) - have or (kb not in have and kb not in miss) or (ready and miss):
+            raise Violation("progress-after-killed-job",
+                            "{} killed inside batch {}: results exist for {} but missing_results() = {}, "
+                            "ready = {}".format(what, kb, sorted(have), miss, ready))
+        present.update(b for b in have if b in cand_batches)
+        return kb
+
     if mode == "cli":
         # ---------------------------------------------------------- xyzpy-grow
         cli = os.path.join(os.path.dirname(PY), "xyzpy-grow")
@@ -177,6 +254,10 @@ def run_c16(ctx):
             extra += ["--num-threads", "2"]
         cmd = [PY, "-m", "xyzpy.gen.xyzpy_grow_cli", NAME, "--parent-dir", root] + extra \
             if t.flag(1, 2, "cli-as-module") else [cli, NAME, "--parent-dir", root] + extra
+        if missing and t.flag(1, 4, "cli-preempted"):
+            # the job is pre-empted while running, then simply submitted again
+            killed_attempt(cmd, env, "xyzpy-grow", missing)
+            missing = [b for b in missing if b not in present]
         before = G.result_ids(location)
         ctx.t("run", " ".join(os.path.basename(c) if c.startswith("/") else c for c in cmd[:3]), extra)
         cp = run_child(cmd, env, root)
@@ -247,12 +328,20 @@ def run_c16(ctx):
             for j in queue:
                 if t.flag(1, 6, "preempt"):
                     w.fired["preempt-requeue"] += 1
-                    ctx.t("task", j, "pre-empted before start, re-queued")
-                    final.append(("requeue", j))
+                    if t.flag(1, 2, "preempt-while-running"):
+                        final.append(("kill", j))
+                    else:
+                        ctx.t("task", j, "pre-empted before start, re-queued")
+                        final.append(("requeue", j))
                 else:
                     final.append(("run", j))
-            final += [("run", j) for kind_, j in final if kind_ == "requeue"]
+            final += [("run", j) for kind_, j in final if kind_ != "run"]
             for kind_, j in final:
+                if kind_ == "kill":
+                    e = dict(env)
+                    e[INDEX_VAR[scheduler]] = str(j)
+                    killed_attempt(["bash", spath], e, "task {}".format(j), [targeted[j - 1]])
+                    continue
                 if kind_ != "run":
                     continue
                 before = G.snapshot_tree(os.path.join(location, "results")) or {}
@@ -283,6 +372,12 @@ def run_c16(ctx):
                                         j, want_b, len(calls), len(keys[want_b])))
                 present.add(want_b)
         else:
+            if targeted and t.flag(1, 4, "single-preempted"):
+                # pre-empted while running, then the same script is submitted again: it
+                # grows what was asked for (explicit ids) or what is then still missing
+                killed_attempt(["bash", spath], dict(env), "single job", targeted)
+                if explicit is None:
+                    targeted = [b for b in targeted if b not in present]
             before = G.result_ids(location)
             before_tree = G.snapshot_tree(os.path.join(location, "results")) or {}
             cp = run_child(["bash", spath], dict(env), root)
@@ -307,10 +402,6 @@ def run_c16(ctx):
                                     len(calls), len(want)))
             present |= set(targeted)
     # ------------------------------------------------------------- afterwards
-    def progress():
-        c = xyzpy.Crop(name=NAME, parent_dir=root)
-        return c.is_ready_to_reap(), tuple(c.missing_results())
-
     ready, miss = call("poller", progress, "progress-raised")
     still = sorted(set(allb) - present)
     if ready != (not still) or list(miss) != still:
@@ -323,6 +414,8 @@ def run_c16(ctx):
     bad = compare_nested(result, sweep, True)
     if bad is not None:
         raise Violation("reap-after-jobs-differs/" + bad[0], bad[1])
+    if w.fired.get("job-killed-while-running"):
+        _sweep_dead_semaphores()
     ctx.stats["children"] += NCHILD[0] - nchild0
     ctx.stats["mode-" + mode] += 1
     ctx.nontrivial = True
